@@ -13,7 +13,7 @@ use std::collections::VecDeque;
 
 #[derive(Clone, Debug, Serialize, Deserialize)]
 pub enum MOp {
-    /// fill `len` bytes (clamped to 1..=space size) of the next space from `content[at..]`, commit, then match or skip
+    /// fill `len` bytes (clamped to 0..=space size) of the next space from `content[at..]`, commit, then match or skip
     Block { len: usize, skip: bool },
     Reset,
 }
@@ -74,6 +74,8 @@ impl Engine for C17 {
                 ops.push(MOp::Reset);
             } else {
                 let len = match r.below(6) {
+                    // an empty block (a caller may commit a space it could not fill)
+                    0 if r.chance(1, 5) => 0,
                     0 => slice_size,
                     1 => r.urange(1, 8.min(slice_size)),
                     2 => slice_size.saturating_sub(r.urange(0, 4)).max(1),
@@ -138,7 +140,10 @@ impl Engine for C17 {
                             stats.inc("probe.recycled_space_larger_than_slice");
                         }
                         // the compressor never hands more than the maximum block it configured
-                        let len = (*len).clamp(1, plan.slice_size);
+                        let len = (*len).min(plan.slice_size);
+                        if len == 0 {
+                            stats.inc("probe.empty_block_committed");
+                        }
                         for b in space[..len].iter_mut() {
                             *b = content[cpos % content.len()];
                             cpos += 1;
@@ -332,6 +337,6 @@ impl Engine for C17 {
     }
 
     fn expected_reach(&self, _tier: Tier) -> Vec<&'static str> {
-        vec!["op.start_matching", "op.skip_matching", "op.reset", "probe.window_eviction", "probe.cross_block_match", "probe.matches_reported", "probe.full_size_history"]
+        vec!["op.start_matching", "op.skip_matching", "op.reset", "probe.window_eviction", "probe.cross_block_match", "probe.matches_reported", "probe.full_size_history", "probe.empty_block_committed"]
     }
 }
